@@ -74,6 +74,7 @@ type World struct {
 	nHTTP   int
 	https   []*HTTPCall
 	stopCh  <-chan error
+	qpos    map[string][]int // per resource: queue positions (1-based enqueue counts) of delivered query events
 }
 
 // HTTPCall is an HTTP request in flight.
@@ -237,6 +238,30 @@ func (w *World) Grant(key string) bool {
 		dk = raw
 	}
 	before := w.S.counter("done", dk)
+	if strings.HasPrefix(raw, "es:") {
+		name := raw[3:]
+		if ps := w.qpos[name]; len(ps) > 0 {
+			st := w.Serv.VerifCache().VerifQueueState()[name]
+			next := w.S.counter("done", "esqdone:"+name) + 1
+			if st[2] < 0 && next == ps[0] {
+				// the task about to run is the query event: record the loaded query variants it will see
+				w.qpos[name] = ps[1:]
+				var vs []string
+				for _, en := range w.Serv.VerifCache().VerifEntries() {
+					if en.Name == name {
+						for _, rs := range en.Resources {
+							if rs.Query != "" && rs.State >= 3 {
+								vs = append(vs, name+"?"+rs.Query)
+							}
+						}
+					}
+				}
+				w.rec(Ev{Kind: "qvariants", Subj: name, Text: strings.Join(vs, " ")})
+			} else if next > ps[0] {
+				w.qpos[name] = ps[1:] // missed (queue was cleared)
+			}
+		}
+	}
 	w.rec(Ev{Kind: "sched", Text: key})
 	if !w.S.release(raw) {
 		return false
@@ -339,6 +364,15 @@ func (w *World) Event(ns, event string, payload []byte) bool {
 	subj := ns + "." + event
 	w.rec(Ev{Kind: "mqevent", Subj: subj, Text: string(payload)})
 	s.cb(subj, payload, nil)
+	if event == "query" && strings.HasPrefix(ns, "event.") {
+		// remember the position of the query event in the resource's task queue: the cached query variants are
+		// recorded right before the task runs (Grant)
+		name := ns[6:]
+		if w.qpos == nil {
+			w.qpos = map[string][]int{}
+		}
+		w.qpos[name] = append(w.qpos[name], w.S.counter("enq", "esq:"+name))
+	}
 	w.stable()
 	w.flushSites()
 	return true
